@@ -447,6 +447,18 @@ struct RunOut {
     stalled: bool,
     deviated: bool,
     panicked: bool,
+    crash: Option<CrashProbe>,
+}
+
+/// what a crash at one moment of the run would leave: taken by the scheduler thread while every
+/// worker is parked - the live store read as it is, and a store recovered from a copy of the log file
+struct CrashProbe {
+    /// number of atomic steps taken before the probe
+    at_step: usize,
+    live: BTreeMap<Key, String>,
+    rec: BTreeMap<Key, String>,
+    /// the durable write that holds the log mutex at that moment (thread, its operation)
+    inflight: Option<(usize, Op)>,
 }
 
 fn universe(progs: &[Vec<Op>]) -> Vec<Key> {
@@ -510,7 +522,7 @@ fn site_key(site: &str, key: &str) -> String {
 /// `exclusive_emb`: the hypothesis of `emb_linearizable_partial` — a thread parked at the entry of
 /// an operation on an `emb:` key is not offered while another thread is inside an operation on the
 /// same key (parked at one of its `router.*` yield points).
-fn run_real(progs: &[Vec<Op>], wal: Option<SyncMode>, variant: u8, respect_lock: bool, exclusive_emb: bool, mut pick: impl FnMut(usize, &[usize], Option<usize>) -> Option<usize>) -> RunOut {
+fn run_real(progs: &[Vec<Op>], wal: Option<SyncMode>, variant: u8, crash_at: Option<usize>, respect_lock: bool, exclusive_emb: bool, mut pick: impl FnMut(usize, &[usize], Option<usize>) -> Option<usize>) -> RunOut {
     let dir = tempfile::tempdir().expect("tempdir");
     let wal_path = dir.path().join("store.wal");
     let cfg = wal.map(|m| WalConfig { sync_mode: m, ..WalConfig::default() });
@@ -556,6 +568,8 @@ fn run_real(progs: &[Vec<Op>], wal: Option<SyncMode>, variant: u8, respect_lock:
     let mut waits: Vec<String> = Vec::new();
     let mut waiting_at: Vec<Vec<usize>> = Vec::new(); // per scheduler step: the threads known to wait
     let mut slow_waiter = false;
+    let ks0 = universe(progs);
+    let mut crash: Option<CrashProbe> = None;
     let short = |site: &str| site.trim_start_matches("store.").trim_start_matches("router.").trim_end_matches(".after_log").to_string();
     let trace = run_threads(tasks, |_n, parked| {
         // a waiter that is parked again has got the mutex and taken its log step: that step ran
@@ -603,6 +617,19 @@ fn run_real(progs: &[Vec<Op>], wal: Option<SyncMode>, variant: u8, respect_lock:
         let cand: Vec<usize> = (0..parked.len()).filter(|i| !(respect_lock && held && takes_lock(&parked[*i])) && !emb_busy(*i)).collect();
         let ids: Vec<usize> = cand.iter().map(|i| parked[*i].0).collect();
         let holder = (0..in_cs.len()).find(|t| in_cs[*t]);
+        if crash_at == Some(grant_no) && crash.is_none() {
+            if let Some(c) = &cfg {
+                let copy = dir.path().join("crash.wal");
+                let rec = std::fs::copy(&wal_path, &copy).ok().and_then(|_| TensorStore::recover(&copy, c, None).ok());
+                if let Some(rec) = rec {
+                    let inflight = holder.and_then(|h| {
+                        let nth = steps.iter().filter(|s| s.0 == h && s.1.starts_with("store.")).count();
+                        progs[h].get(nth.wrapping_sub(1)).map(|op| (h, *op))
+                    });
+                    crash = Some(CrashProbe { at_step: steps.len(), live: view_of(&store, &ks0), rec: view_of(&rec, &ks0), inflight });
+                }
+            }
+        }
         let want = pick(grant_no, &ids, if waiting.is_empty() { None } else { holder });
         grant_no += 1;
         let p = match want.and_then(|w| ids.iter().position(|x| *x == w)) {
@@ -725,6 +752,7 @@ fn run_real(progs: &[Vec<Op>], wal: Option<SyncMode>, variant: u8, respect_lock:
         stalled,
         deviated,
         panicked,
+        crash,
     }
 }
 
@@ -1088,6 +1116,8 @@ struct Ctx<'a> {
     /// how the store is built (see `run_real`): 0 plain, 1 Bloom filter, 2 instrumentation, 3 both
     variant: u8,
     scan_observed: u32,
+    /// take a `CrashProbe` before this grant (runs with a log only)
+    crash_at: Option<usize>,
 }
 
 impl Ctx<'_> {
@@ -1107,7 +1137,7 @@ impl Ctx<'_> {
         // must be reproduced on every run, also on a loaded machine
         for _attempt in 0..(if sched.is_some() { 12 } else { 3 }) {
             let mut r2 = rng.clone();
-            let o = run_real(progs, wal, self.variant, !self.real_mutex, self.exclusive_emb, |i, ids, holder| match sched {
+            let o = run_real(progs, wal, self.variant, self.crash_at, !self.real_mutex, self.exclusive_emb, |i, ids, holder| match sched {
                 Some(s) => s.get(i).copied(),
                 // while somebody waits for the mutex every scheduling decision costs the stall window:
                 // let the holder go on half of the time
@@ -1209,6 +1239,9 @@ impl Ctx<'_> {
             self.rep.compare(&format!("{stream}.wal_records"), input, w, parts.get("wal").unwrap_or(&"?"));
             self.rep.compare(&format!("{stream}.recovered_image"), input, ri, parts.get("rimage").unwrap_or(&"?"));
         }
+        if let Some(cp) = &o.crash {
+            self.crash_probe(progs, &o, cp);
+        }
         if self.rep.samples.len() < 6 && nontrivial {
             self.rep.sample(json!({"stream": stream, "line": line, "real_hist": o.hist_s, "image": o.image}));
         }
@@ -1216,6 +1249,57 @@ impl Ctx<'_> {
             self.oracles(progs, wal.is_some(), &o, &input());
         }
         Some(o)
+    }
+
+    /// A crash at one moment of a run whose writes are all durable (`crash_at_any_step_recovers_live_
+    /// or_inflight_write_completed`): the store recovered from the log as it was at that moment shows
+    /// every key as the live store did at that moment - except the key of the one durable write that
+    /// held the log mutex, which it shows as that write leaves it.  Model: image and recovered image
+    /// of the run cut at the same step.
+    fn crash_probe(&mut self, progs: &[Vec<Op>], o: &RunOut, cp: &CrashProbe) {
+        let prefix: Vec<usize> = o.sched[..cp.at_step.min(o.sched.len())].to_vec();
+        let line = format!("run 1 {} {}", show_progs(progs), show_sched(&prefix));
+        self.rep.case("crash.mid_run", Some(&line));
+        self.rep.hit(if cp.inflight.is_some() { "crash:while_a_durable_write_holds_the_mutex" } else { "crash:nobody_inside_a_durable_write" });
+        let ans = self.model.ask(&line);
+        let mut parts: BTreeMap<&str, &str> = BTreeMap::new();
+        for p in ans.split(" | ") {
+            if let Some((a, b)) = p.split_once(' ') {
+                parts.insert(a, b);
+            }
+        }
+        let input = || json!({"line": line, "crash_after_steps": cp.at_step});
+        self.rep.compare("crash.mid_run.image", input, &show_view(&cp.live), parts.get("image").unwrap_or(&"?"));
+        self.rep.compare("crash.mid_run.recovered_image", input, &show_view(&cp.rec), parts.get("rimage").unwrap_or(&"?"));
+        // the oracle, on the real outputs alone
+        let all_durable = !progs.iter().flatten().any(|op| matches!(op, Op::Put(k, _) | Op::Del(k) if k.cls() != Cls::C));
+        if !all_durable {
+            return;
+        }
+        let mut bad = Vec::new();
+        for (k, live) in &cp.live {
+            if k.cls() == Cls::C {
+                continue;
+            }
+            let rec = cp.rec.get(k).cloned().unwrap_or_default();
+            let want = match cp.inflight {
+                Some((_, Op::PutD(ik, v))) if ik == *k => format!("v{}/T/T", v.show()),
+                Some((_, Op::DelD(ik))) if ik == *k => "nf/F/F".to_string(),
+                _ => live.clone(),
+            };
+            if rec != want {
+                bad.push(json!({"key": k.show(), "live": live, "recovered": rec, "expected_recovered": want}));
+            }
+        }
+        if bad.is_empty() {
+            self.rep.hit("oracle:crash_mid_run_recovers_live_or_inflight_write_completed");
+        } else {
+            self.violation(
+                "tensor_store.recover/crash_mid_run_recovers_neither_live_state_nor_completed_inflight_write",
+                "a crash while the workers were parked: the store recovered from the log file differs from the live store on a key other than the key of the durable write that holds the log mutex, or shows that key otherwise than the write leaves it",
+                json!({"line": line, "crash_after_steps": cp.at_step, "inflight": cp.inflight.map(|(t, op)| format!("t{t}:{}", op.show())), "keys": bad, "real_trace": o.trace}),
+            );
+        }
     }
 
     /// Ask the REAL log mutex: run a scripted schedule without the harness-side mirror.  `sched`
@@ -1226,7 +1310,7 @@ impl Ctx<'_> {
     /// blocked thread where it is).  If the mutex were released before the apply (the code before
     /// dfea2ecb) the script executes as written and the durable oracle reports the reversal.
     fn mutex_probe(&mut self, progs: &[Vec<Op>], sched: &[usize]) {
-        let o = run_real(progs, Some(SyncMode::Immediate), 0, false, false, |i, _, _| sched.get(i).copied());
+        let o = run_real(progs, Some(SyncMode::Immediate), 0, None, false, false, |i, _, _| sched.get(i).copied());
         let line = format!("run 1 {} {}", show_progs(progs), show_sched(sched));
         self.rep.case("probe.log_mutex", Some(&line));
         self.rep.hit(if o.stalled { "probe:second_durable_writer_blocked_on_real_log_mutex" } else { "probe:second_durable_writer_not_blocked" });
@@ -1468,7 +1552,7 @@ fn main() {
             if let Some(progs) = parse_progs(f[2]) {
                 let real_mutex = v["failing_input"]["mutex"].as_str() == Some("real");
                 let sched = parse_sched(if real_mutex { v["failing_input"]["grants"].as_str().unwrap_or(f[3]) } else { f[3] });
-                let mut ctx = Ctx { rep: &mut rep, model: &mut model, viol_count: BTreeMap::new(), budget_hits: 0, stalls: 0, exclusive_emb: false, real_mutex, variant: 0, scan_observed: 0 };
+                let mut ctx = Ctx { rep: &mut rep, model: &mut model, viol_count: BTreeMap::new(), budget_hits: 0, stalls: 0, exclusive_emb: false, real_mutex, variant: 0, scan_observed: 0, crash_at: None };
                 let mut r = root.fork("replay");
                 let wal = if f[1] == "1" { Some(SyncMode::Immediate) } else { None };
                 if let Some(o) = ctx.case("replay", &progs, wal, Some(&sched), &mut r, true) {
@@ -1481,7 +1565,7 @@ fn main() {
     }
 
     let scale: u64 = if args.thorough { 12 } else { 1 };
-    let mut ctx = Ctx { rep: &mut rep, model: &mut model, viol_count: BTreeMap::new(), budget_hits: 0, stalls: 0, exclusive_emb: false, real_mutex: false, variant: 0, scan_observed: 0 };
+    let mut ctx = Ctx { rep: &mut rep, model: &mut model, viol_count: BTreeMap::new(), budget_hits: 0, stalls: 0, exclusive_emb: false, real_mutex: false, variant: 0, scan_observed: 0, crash_at: None };
 
     // ---- FIRST: prefix scans over keys that are arbitrary strings, sequential and directed
     //      (deterministic for every seed): prefixes without an end key (`next_prefix` = None: the
@@ -1822,6 +1906,17 @@ fn main() {
             ctx.case(stream, &progs, wal, None, &mut r, true);
         }
         ctx.variant = 0;
+        // the same programs, fsync per record, and a crash probe at a random moment of the run
+        let stream = "random.durable_crash_anywhere";
+        let mut r = root.fork(stream);
+        for i in 0..(40 * scale) {
+            let nthreads = 2 + (i % 4) as usize;
+            let progs = g.durable_rw(&mut r, nthreads);
+            let est: u64 = progs.iter().flatten().map(|op| match op { Op::PutD(k, _) | Op::DelD(k) if k.cls() == Cls::E => 4, Op::PutD(..) | Op::DelD(..) => 2, _ => 1 }).sum();
+            ctx.crash_at = Some(r.below(est.max(1)) as usize);
+            ctx.case(stream, &progs, Some(SyncMode::Immediate), None, &mut r, true);
+        }
+        ctx.crash_at = None;
     }
 
     // ---- the hypothesis of `emb_linearizable_partial` on the real store: any programs of
@@ -1877,6 +1972,8 @@ fn main() {
         "store:plain", "store:bloom_filter", "store:instrumentation", "store:bloom_filter_and_instrumentation",
         "scan:prefix_without_end_key", "scan:prefix_with_end_key", "scan:empty_prefix", "scan:class_prefix",
         "key:not_a_class_alias", "key:empty", "key:multibyte",
+        "crash:while_a_durable_write_holds_the_mutex", "crash:nobody_inside_a_durable_write",
+        "oracle:crash_mid_run_recovers_live_or_inflight_write_completed",
     ]
     .iter()
     .map(|s| s.to_string())
